@@ -493,6 +493,21 @@ pub fn oneshot_replay(cx: &mut Ctx, path: &str) {
     }
 }
 
+/// spec -> impl for Encoding::encode: every text exported by MC_OneShotEnc (lines {"enc": name, "text": [scalars]})
+pub fn oneshot_enc_replay(cx: &mut Ctx, path: &str) {
+    use serde_json::Value;
+    let text = std::fs::read_to_string(path).expect("input file");
+    for l in text.lines() {
+        let v: Value = match serde_json::from_str(l) {
+            Ok(v) => v,
+            Err(_) => continue,
+        };
+        let e = enc(v["enc"].as_str().unwrap());
+        let t: Vec<u32> = v["text"].as_array().unwrap().iter().map(|x| x.as_u64().unwrap() as u32).collect();
+        one_encode(cx, e, 0, &t);
+    }
+}
+
 fn hash_of(e: &'static Encoding) -> u64 {
     use std::hash::{Hash, Hasher};
     let mut h = std::collections::hash_map::DefaultHasher::new();
